@@ -2454,7 +2454,56 @@ def corr_mix(ctx):
         disagreement(ctx, "req-attrs-mix", cases[i][2], [cases[i][2]] + derived_checks("req", cases[i][2]["ops"]))
 
 
+
+# ----------------------------------------------------------------------------------------------
+# traceability: what the Gallina models mirror by hand (ctx.modelled records file, lines and a hash of each)
+# ----------------------------------------------------------------------------------------------
+_RESP_TABLE = ["allow", "vary", "content_language", "content_length", "age", "content_encoding", "content_location", "content_md5",
+               "content_disposition", "accept_ranges", "location", "pragma", "server", "content_range", "date", "expires",
+               "last_modified", "retry_after", "www_authenticate", "charset", "content_type", "content_type_params", "cache_control"]
+_REQ_TABLE = ["authorization", "cache_control", "date", "if_modified_since", "if_unmodified_since", "max_forwards", "pragma", "range",
+              "referer", "user_agent", "content_length", "server_port", "content_type", "charset"]
+MODELLED = (
+    # Model/C12_Headers.v
+    ["webob.descriptors:" + n for n in ("environ_getter", "header_getter", "converter", "list_header", "parse_list", "serialize_list",
+                                        "converter_date", "date_header", "parse_int", "parse_int_safe", "serialize_int")]
+    # Model/C12_ByteRange.v
+    + ["webob.byterange:" + n for n in ("_rx_range", "_rx_content_range", "Range.__init__", "Range.__str__", "Range.parse",
+                                        "ContentRange.__init__", "ContentRange.__str__", "ContentRange.parse", "_is_content_range_valid")]
+    + ["webob.descriptors:" + n for n in ("parse_range", "serialize_range", "parse_content_range", "serialize_content_range")]
+    # Model/C12_Dates.v (with the stdlib functions it mirrors; _parsedate_tz on the canonical IMF-fixdate form only)
+    + ["webob.datetime_utils:" + n for n in ("parse_date", "serialize_date", "parse_date_delta", "serialize_date_delta", "_UTC")]
+    + ["calendar:timegm", "email._parseaddr:mktime_tz", "email._parseaddr:_parsedate_tz", "email.utils:formatdate",
+       "email.utils:format_datetime", "email.utils:_format_timetuple_and_zone"]
+    # Model/C12_CacheControl.v
+    + ["webob.cachecontrol:" + n for n in ("UpdateDict", "token_re", "need_quote_re", "exists_property", "value_property", "CacheControl",
+                                           "serialize_cache_control")]
+    + ["webob.response:Response." + n for n in ("_cache_control__get", "_cache_control__set", "_cache_control__del", "_update_cache_control")]
+    + ["webob.request:BaseRequest." + n for n in ("_cache_control__get", "_cache_control__set", "_cache_control__del", "_update_cache_control")]
+    # Model/C12_AuthCT.v
+    + ["webob.descriptors:" + n for n in ("_rx_auth_param", "parse_auth_params", "known_auth_schemes", "parse_auth", "serialize_auth",
+                                          "CHARSET_RE")]
+    + ["webob.response:" + n for n in ("_PARAM_RE", "_OK_PARAM_RE", "_is_xml", "_content_type_has_charset", "Response._charset__get",
+                                       "Response._charset__set", "Response._charset__del", "Response._content_type__get",
+                                       "Response._content_type__set", "Response._content_type__del", "Response._content_type_params__get",
+                                       "Response._content_type_params__set", "Response._content_type_params__del")]
+    + ["webob.headers:ResponseHeaders.__getitem__", "webob.headers:ResponseHeaders.__setitem__", "webob.multidict:MultiDict.pop"]
+    + ["webob.request:" + n for n in ("BaseRequest._content_type__get", "BaseRequest._content_type__set", "BaseRequest._content_type_raw",
+                                      "detect_charset", "_is_utf8")]
+    # Model/C12_Attrs.v: the two attribute tables (which header / environ key and which converter each attribute uses)
+    + ["webob.response:Response." + n for n in _RESP_TABLE]
+    + ["webob.request:BaseRequest." + n for n in _REQ_TABLE]
+)
+REGENERATED = []          # nothing is translated into coq/Gen; two source variants are read by source_cfg (model parameters)
+ORACLE_ONLY = (["webob.descriptors:" + n for n in ("_rx_etag", "parse_etag_response", "serialize_etag_response", "serialize_if_range")]
+               + ["webob.etag:" + n for n in ("etag_property", "ETagMatcher.parse", "IfRange.parse", "IfRangeDate")]
+               + ["webob.response:Response.etag", "webob.response:Response.etag_strong", "webob.request:BaseRequest.if_range",
+                  "webob.request:BaseRequest.if_match", "webob.request:BaseRequest.if_none_match"])
+
 def run(ctx):
+    ctx.modelled(MODELLED)
+    ctx.extra["regenerated_from_source"] = REGENERATED
+    ctx.extra["oracle_only"] = ORACLE_ONLY
     ctx.build(["Props/C12.vo"])
     table_check(ctx)
     source_cfg(ctx)
